@@ -27,9 +27,10 @@ def run(ctx: Ctx, chk) -> None:
     chk.run_rule(encid1, ctx)
     chk.run_rule(enc_fresh, ctx)
     # observed at Gateway.listen: the yielded message is the decode of the line just read (same rule as C02)
-    from .c02 import decl1, fresh_decode
+    from .c02 import decl1, fresh_decode, memoised_codec
 
     chk.run_rule(fresh_decode, ctx)
+    chk.run_rule(memoised_codec, ctx)
     # every well-formed message decodes: the field declarations carry no load-side restriction (a validator runs on
     # load only, never on dump) beyond the ranges of the statement - any integer type, any payload text (same rule as C02)
     chk.run_rule(decl1, ctx)
@@ -521,7 +522,16 @@ def enc_fresh(ctx: Ctx, chk) -> None:
         raise AnalysisError("ENC-FRESH-1: the dispatch does not pass the encoded line as 4th argument")
     got = cn.canon(c.args[3])
     want = f"self._message_schema.dump({msg})"
+    from .common import schema_attrs
+    import re as _re
+
+    m_ = _re.match(r"^self\.(\w+)\.dump\((.*)\)$", got)
+    if m_ and m_.group(1) in schema_attrs(ctx) and m_.group(2) == msg:
+        want = got  # the gateway's own MessageSchema instance, whatever the attribute is called
     if got == want and cn.canon(c.args[1]) == msg:
         chk.ok(rule, key, f"handler(self, {msg}, <buffer>, {want})", ctx.loc(send_raw, c))
+    elif not _re.search(r"\.dumps?\(", got):
+        # not an encode call at all (a helper that could not be written out, a stored bound method ...): no verdict
+        raise AnalysisError(f"ENC-FRESH-1: the encoded line handed on is `{got[:60]}` - its origin is not an encode call visible in Gateway.send (helper not written out)")
     else:
         chk.refute(rule, key, f"the encoded line handed on is `{got[:70]}`, not `{want}` computed in this call: a message object that was sent before and changed since can be written in its old encoding", ctx.loc(send_raw, c))
